@@ -216,6 +216,43 @@ Proof.
   { unfold Bf. rewrite <- dotU_lsub_r. unfold G. rewrite Htmul_mulPHDI, lincomb_mv, <- node_udot. reflexivity. }
   rewrite E. lra.
 Qed.
+
+(** ** the uniqueness direction at one body: if accelerating this body with mobility accelerations [u] (on top of the
+    parent's A+) makes the inverse-dynamics force balance the applied mobility forces, ~H Z(u) = f, then the forward-dynamics
+    udot of this body IS u, and Z(u) = P+ A+ + z+.  Needs DI to be a left inverse of D as well. *)
+Variable u : list R.
+Definition uA' := vadd K Aplus (Hmul K H u).
+Definition uAn := vadd K uA' a.
+Definition uZ := vadd K (vsub K A (vadd K (mapply K Mk uAn) g) F)
+               (fold_right (fun r acc => vadd K (phi K (lf r) (Zf r uAn)) acc) (vzero K) cs).
+Lemma node_uZ_weak y : dot K uZ y = dot K (papply A Pb uA') y + dot K z y.
+Proof.
+  unfold uZ. rewrite dot_add_l, dot_vsub_l, dot_add_l, (dot_fold_gather lf (fun r => Zf r uAn)).
+  rewrite (lsum_map_ext (fun r => dot K (Zf r uAn) (phiT K (lf r) y))
+            (fun r => (dot K (papply A (pf r) (phiT K (lf r) uA')) (phiT K (lf r) y)
+                       + dot K (papply A (pf r) (phiT K (lf r) a)) (phiT K (lf r) y))
+                      + dot K (zf r) (phiT K (lf r) y))).
+  2:{ eapply Forall_impl; [|exact IHc]. intros c Hc. cbv beta. rewrite Hc. unfold uAn.
+      rewrite dot_add_l, phiT_add, papply_add, dot_add_l. reflexivity. }
+  rewrite !lsum_map_plus.
+  unfold z. rewrite (dot_fold_acc lf zf). unfold z0. rewrite dot_vsub_l, dot_add_l.
+  unfold Pb. rewrite !dot_fold_P, !pofI_app. unfold uAn. rewrite mapply_add, dot_add_l. lra.
+Qed.
+Hypothesis Hu : length u = length H.
+Hypothesis Hres : Htmul K H uZ = f.
+Hypothesis Hleft : forall e, length e = length H -> mv K DI (mv K D e) = e.
+
+Lemma node_u_unique : udot = u.
+Proof.
+  rewrite node_udot, <- (Hleft u Hu). f_equal.
+  unfold eps. rewrite <- Hres. unfold Htmul at 1 2. rewrite lsub_map.
+  unfold PH at 1. unfold Htmul. rewrite map_map, lsub_map. unfold D, mv. rewrite map_map.
+  apply map_ext. intros h. rewrite node_uZ_weak. unfold uA'. rewrite papply_add, dot_add_l.
+  rewrite (P_sym Pb Aplus h), (P_sym Pb (Hmul K H u) h), (dot_sym (Hmul K H u)), Ht_adj', Htmul_PH_sym. fold PH. lra.
+Qed.
+
+Lemma node_uZ : uZ = vadd K (papply A Pp Aplus) zp.
+Proof. rewrite <- node_Z. unfold uZ, Z, uAn, An, uA', A'. rewrite node_u_unique. reflexivity. Qed.
 End Node.
 
 (** ** the tree induction *)
@@ -398,6 +435,116 @@ Theorem reaction_routes_agree (t : tree X) :
   = map (fun r => (fst r, snd (snd r))) (flatten (react_art K A nd dy t)).
 Proof. intros Hok. rewrite <- !flatten_tmap. f_equal.
   unfold react_fb, react_art, fd, fd2_pass. exact (route_sub t Hok (vzero K, []) (vzero K, vzero K) eq_refl). Qed.
+
+(** ** uniqueness: the other direction of "exact inverses".  If the mobility accelerations [ud] make the inverse-dynamics
+    residual vanish at every mobility (i.e. the applied mobility forces are the ones inverse dynamics asks for), then the
+    forward-dynamics passes return exactly [ud], at every body of every tree.  Needs the small inverse DI to be a
+    two-sided inverse of D. *)
+Section Unique.
+Variable ud : X -> list R.
+Definition UZ (t : tree X) (Ap : V) : tree ((X * V) * V) :=
+  accum K (fun xv => nd (fst xv)) (rnea_force K A nd dy) (kin K nd ud (fun x => d_a (dy x)) Ap t).
+Definition res_ok (r : (X * V) * V) : Prop := Htmul K (n_H (nd (fst (fst r)))) (snd r) = d_f (dy (fst (fst r))).
+Definition node_ok_l (y : X * abi R V P) : Prop :=
+  node_ok y
+  /\ (forall e, length e = length (n_H (nd (fst y))) -> mv K (a_DI (snd y)) (mv K (a_D (snd y)) e) = e)
+  /\ length (ud (fst y)) = length (n_H (nd (fst y))).
+
+Lemma UZ_node x cs Ap :
+  UZ (Node x cs) Ap =
+  let An := vadd K (vadd K (phiT K (n_l (nd x)) Ap) (Hmul K (n_H (nd x)) (ud x))) (d_a (dy x)) in
+  Node ((x, An), gather K (fun xv => nd (fst xv)) (rnea_force K A nd dy) (x, An) (map (fun c => root (UZ c An)) cs))
+       (map (fun c => UZ c An) cs).
+Proof. unfold UZ, kin, accum. cbn [outward inward]. rewrite !map_map. reflexivity. Qed.
+Lemma UZ_root_x c Ap : fst (fst (root (UZ c Ap))) = fst (fst (root (F1 c))).
+Proof. destruct c as [x cs]. rewrite UZ_node, F1_node. reflexivity. Qed.
+Lemma fold_right_ext_Forall {B D} (f g : B -> D -> D) i l : Forall (fun b => forall acc, f b acc = g b acc) l -> fold_right f i l = fold_right g i l.
+Proof. induction 1 as [|b l Hb _ IHl]; cbn; [reflexivity|]. rewrite IHl. apply Hb. Qed.
+Lemma Forall_flat_map_inv {B C} (g : B -> tree C) (Q : C -> Prop) l :
+  Forall Q (flat_map flatten (map g l)) -> Forall (fun c => Forall Q (flatten (g c))) l.
+Proof. induction l as [|b l IHl]; cbn [map flat_map]; intros Hq; [constructor|]. apply Forall_app in Hq. destruct Hq as [H1 H2].
+  constructor; auto. Qed.
+
+Lemma uniq_sub : forall t, (forall y, In y (flatten (abi_pass K A nd t)) -> node_ok_l y) -> forall Ap u0,
+  Forall res_ok (flatten (UZ t Ap)) ->
+  snd (root (UZ t Ap)) = vadd K (papply A (pfT t) (phiT K (lfT t) Ap)) (zfT t)
+  /\ Forall (fun w : WT => snd (snd w) = ud (w_x w)) (flatten (outward (fd2_step K A nd dy) (Ap, u0) (F1 t))).
+Proof.
+  induction t as [x cs IH] using tree_ind'. intros Hok Ap u0 Hres.
+  assert (Hkids : Forall (fun c => forall y, In y (flatten (abi_pass K A nd c)) -> node_ok_l y) cs).
+  { apply Forall_forall. intros c Hc y Hy. apply Hok. unfold abi_pass. cbn [inward flatten]. right.
+    apply in_flat_map. exists (inward (abi_step K A nd) c). split; [apply in_map; exact Hc | exact Hy]. }
+  assert (Hme : node_ok_l (x, abi_step K A nd x (map (fun c => fst (root (F1 c))) cs))).
+  { apply Hok. unfold abi_pass. cbn [inward flatten]. left. f_equal. f_equal. rewrite map_map. apply map_ext. intros c. apply abi_root_F1. }
+  unfold pfT, zfT, lfT. rewrite UZ_node in *. rewrite F1_node. cbv zeta in *. cbn [root fst snd flatten outward] in *.
+  rewrite abi_step_form in *. cbv zeta in *.
+  rewrite (fd1_step_form x cs (minv A (nD lfT pfT cs (n_H (nd x)) (n_M (nd x))))). cbv zeta.
+  set (Mk := n_M (nd x)) in *. set (H := n_H (nd x)) in *.
+  set (DI := minv A (nD lfT pfT cs H Mk)) in *.
+  set (d := dy x) in *.
+  destruct Hme as [[Hinv Hf] [Hleft Hu]]. cbn [fst snd a_D a_DI] in Hinv, Hf, Hleft, Hu. fold H d in Hinv, Hf, Hleft, Hu.
+  set (Aplus := phiT K (n_l (nd x)) Ap) in *.
+  set (An := vadd K (vadd K Aplus (Hmul K H (ud x))) (d_a d)) in *.
+  inversion Hres as [|r0 rest Hres0 HresK]; subst r0 rest. apply Forall_flat_map_inv in HresK.
+  set (Zf := fun (c : tree X) (A0 : V) => vadd K (papply A (pfT c) (phiT K (lfT c) A0)) (zfT c)).
+  assert (IHc : Forall (fun c => forall A0, Zf c A0 = vadd K (papply A (pfT c) (phiT K (lfT c) A0)) (zfT c)) cs)
+    by (apply Forall_forall; intros; reflexivity).
+  assert (IHk : Forall (fun c => snd (root (UZ c An)) = Zf c An
+                         /\ forall u', Forall (fun w : WT => snd (snd w) = ud (w_x w)) (flatten (outward (fd2_step K A nd dy) (An, u') (F1 c)))) cs).
+  { apply Forall_forall. intros c Hc. rewrite Forall_forall in IH, Hkids, HresK.
+    split; [destruct (IH c Hc (Hkids c Hc) An u0 (HresK c Hc)) as [E _]; exact E
+           | intros u'; destruct (IH c Hc (Hkids c Hc) An u' (HresK c Hc)) as [_ E]; exact E]. }
+  assert (EG : gather K (fun xv : X * V => nd (fst xv)) (rnea_force K A nd dy) (x, An) (map (fun c => root (UZ c An)) cs)
+               = uZ lfT Zf cs H Mk (d_a d) (d_g d) (d_F d) Aplus (ud x)).
+  { unfold gather, uZ, rnea_force, uAn, uA'. cbn [fst snd]. fold Mk d An. f_equal. rewrite fold_right_map'.
+    apply fold_right_ext_Forall. eapply Forall_impl; [|exact IHk]. intros c [Hc _] acc. cbn beta.
+    rewrite UZ_root_x, Hc. reflexivity. }
+  unfold res_ok in Hres0. cbn [fst snd] in Hres0. fold H d in Hres0. rewrite EG in *. clear EG.
+  pose proof (node_u_unique lfT pfT zfT Zf cs H Mk (d_a d) (d_g d) (d_F d) (d_f d) Aplus DI IHc Hinv Hf (ud x) Hu Hres0 Hleft) as Eu.
+  split.
+  - apply (node_uZ lfT pfT zfT Zf cs H Mk (d_a d) (d_g d) (d_F d) (d_f d) Aplus DI IHc Hinv Hf (ud x) Hu Hres0 Hleft).
+  - match goal with |- context [fd2_step K A nd dy (Ap, u0) ?w] =>
+      assert (Eb : fd2_step K A nd dy (Ap, u0) w = (An, ud x));
+      [unfold fd2_step; cbn [fst snd a_DI a_G z_eps z_zp a_Pp]; fold Mk H d Aplus;
+       fold (nudot lfT pfT zfT cs H Mk (d_a d) (d_g d) (d_F d) (d_f d) Aplus DI); rewrite Eu; reflexivity|] end.
+    rewrite Eb. constructor; [reflexivity|]. rewrite map_map. apply Forall_flat_map_map. eapply Forall_impl; [|exact IHk]. intros c [_ Hc]. apply Hc.
+Qed.
+
+Lemma tmap_fst_inward' {A0 B0} (g : A0 -> list (A0 * B0) -> B0) t : tmap fst (inward g t) = t.
+Proof. induction t as [a cs IH] using tree_ind'. cbn. f_equal. rewrite map_map.
+  induction cs as [|c r IHr]; cbn; auto. inversion IH; subst. f_equal; auto. Qed.
+Lemma UZ_labels t Ap : map (fun r : (X * V) * V => fst (fst r)) (flatten (UZ t Ap)) = flatten t.
+Proof. rewrite <- flatten_tmap, <- (tmap_tmap fst fst). unfold UZ, accum. rewrite tmap_fst_inward'. unfold kin.
+  rewrite tmap_fst_outward. reflexivity. Qed.
+Lemma abi_labels t : map fst (flatten (abi_pass K A nd t)) = flatten t.
+Proof. rewrite <- flatten_tmap. unfold abi_pass. rewrite tmap_fst_inward'. reflexivity. Qed.
+Lemma lsub_zero_eq' : forall (a b : list R) (c : list V), length a = length b -> length a = length c ->
+  lsub K A a b = map (fun _ => 0) c -> a = b.
+Proof. induction a as [|x a IHa]; intros [|y b] [|z c] E1 E2 E; try discriminate; [reflexivity|].
+  cbn [lsub map] in E. injection E as E0 E'. f_equal.
+  - unfold ssub in E0. rewrite sadd_is, sneg_is in E0. lra.
+  - apply (IHa b c); cbn in *; auto. Qed.
+
+(** THE SECOND MAIN THEOREM (uniqueness). *)
+Theorem fd_unique (t : tree X) :
+  (forall y, In y (flatten (abi_pass K A nd t)) -> node_ok_l y) ->
+  Forall (fun r => snd r = map (fun _ => 0) (n_H (nd (fst (fst (fst r)))))) (flatten (rnea K A nd dy ud t)) ->
+  Forall (fun w : WT => w_ud w = ud (w_x w)) (flatten (fd K A nd dy t)).
+Proof. intros Hok Hres.
+  assert (Hr : Forall res_ok (flatten (UZ t (vzero K)))).
+  { unfold rnea, rnea_acc in Hres. rewrite flatten_tmap in Hres. fold (UZ t (vzero K)) in Hres.
+    rewrite Forall_map in Hres. cbn [fst snd] in Hres.
+    rewrite Forall_forall in *. intros r Hin. unfold res_ok.
+    assert (Hx : In (fst (fst r)) (flatten t)) by (rewrite <- (UZ_labels t (vzero K)); apply (in_map (fun r : (X * V) * V => fst (fst r))); exact Hin).
+    rewrite <- abi_labels in Hx. apply in_map_iff in Hx. destruct Hx as [y [Ey Hy]].
+    destruct (Hok y Hy) as [[_ Hf] _]. rewrite Ey in Hf.
+    apply (lsub_zero_eq' _ _ (n_H (nd (fst (fst r))))).
+    - rewrite Htmul_length. symmetry. exact Hf.
+    - apply Htmul_length.
+    - apply Hres. exact Hin. }
+  destruct (uniq_sub t Hok (vzero K) [] Hr) as [_ Hu]. exact Hu.
+Qed.
+End Unique.
 End FD.
 
 (** ** weak-form specification of inverse dynamics, from the generalised adjoint identity *)
